@@ -1794,6 +1794,32 @@ def selftest():
         want = {k1 + 1: "C08", k2 + 1: "C06", k3 + 1: "DRIFT", k4 + 1: "DRIFT"}
         if not ok or set(got) != set(want) or any(not any(y.startswith(pref) for y in got.get(k, [])) for k, pref in want.items()):
             failures.append("RecTrace corruption test: wanted %s, rejected %s" % (want, {k: v[:1] for k, v in got.items()}))
+        # 6. lookahead machines (LookTrace.tla): a recorded set with one situation removed is reported as drift, untouched lines are not
+        ll = []
+        for r in recs:
+            if r.get("k") != "parse" or r["la"] != 1 or r["rc"] != 0 or r["calls"]:
+                continue
+            vec = vecs[r["g"]]
+            if any(0 in rr["r"] for rr in vec["rules"]):
+                continue
+            c2n = {code(t["c"]): t["n"] for t in vec["terms"]}
+            sets = []
+            for ev in r.get("ev", []):
+                if ev["k"] == 1 and ev["a"] == len(sets):
+                    sets.append([it[:3] for it in ev["it"]])
+            if len(sets) >= 3:
+                ll.append({"id": "%s/%s" % (r["g"], r["w"]), "terms": [t["n"] for t in vec["terms"]], "rules": vec["rules"], "w": [c2n[c] for c in r["toks"]], "la": 1, "sets": sets})
+        ll = ll[:30]
+        cfgl = "CONSTANTS\n  GrammarsC <- DummyGL\n  TermsC = {1}\n  MaxPl = 1\n"
+        if len(ll) >= 4:
+            bad = copy.deepcopy(ll)
+            m1 = next(i for i, ln in enumerate(bad) if len(ln["sets"][2]) >= 2)
+            del bad[m1]["sets"][2][0]
+            ok, rej, _ = validate_trace(scratch, "LookTrace", bad, "self_k1", cfg_extra=cfgl)
+            if not ok or {x[0] for x in rej} != {m1 + 1}:
+                failures.append("LookTrace corruption test: corrupted line %d, reported %s" % (m1 + 1, sorted(x[0] for x in rej)))
+        else:
+            failures.append("LookTrace self-test: too few lines (%d)" % len(ll))
     finally:
         scratch.cleanup()
     for f in failures:
